@@ -37,8 +37,9 @@ def answer (line : String) : String :=
     match dispatch verb args obs with
     | some r =>
       -- a lab reports a panic of the code under test as `panic:<hex of the message>`; whatever the
-      -- lab, none of the modelled operations may panic on the inputs the labs generate
-      if obs.startsWith "panic:" then
+      -- lab, none of the modelled operations may panic on the inputs the labs generate (handlers that
+      -- interpret a panic themselves - the argument sort under finding F8 - keep their verdict)
+      if obs.startsWith "panic:" ∧ (r.verdict = "ok" ∨ (r.verdict.splitOn "malformed observation").length > 1) then
         let msg := String.fromUTF8! (ByteArray.mk ((unhexBytes ((obs.drop 6).toString)).map (·.toUInt8)).toArray)
         s!"{r.model}\tbad:the implementation panicked while executing this request: {msg}\t{r.tag}"
       else s!"{r.model}\t{r.verdict}\t{r.tag}"
